@@ -197,6 +197,13 @@ impl Ident {
     pub fn new(s: &str, _span: Span) -> (r: Ident)
         ensures r.name() == s@,
     { unimplemented!() }
+
+    /// the spelling stays, the identifier is no longer THE SAME identifier (its span carries the hygiene context that
+    /// decides which binding it resolves to), so nothing is promised beyond the name
+    #[verifier::external_body]
+    pub fn set_span(&mut self, _span: Span)
+        ensures final(self).name() == old(self).name(),
+    { unimplemented!() }
 }
 
 impl Clone for Ident {
